@@ -123,26 +123,40 @@ Lemma partial_oend t cap n : 0 <= t -> 0 <= n -> Z.min t n <= cap ->
   0 <= Z.min t cap /\ Z.min (Z.min t cap) n = Z.min t n /\ (t <= n -> Z.min t cap <= n).
 Proof. lia. Qed.
 
-Theorem partial_exact_prefix :
-  forall (fastloop : bool) (B hist D : list Z) (srcm dictm : mem) (t cap k : Z) (m0 : mem),
+Theorem partial_exact :
+  forall (fastloop : bool) (pl : placement) (B hist D : list Z) (srcm dictm : mem) (t cap k : Z) (m0 : mem),
     strict_valid (lastn (Z.to_nat 65536) hist) B = Some D -> bytes B -> src_at srcm 0 B ->
-    hist_placed PPrefix hist dictm m0 -> 0 <= t -> Z.min t (Z.of_nat (length D)) <= cap ->
+    hist_placed pl hist dictm m0 -> 0 <= t -> Z.min t (Z.of_nat (length D)) <= cap ->
     0 <= k -> (k = 0 \/ t <= Z.of_nat (length D)) ->
-    decodes_prefix (decompress_usingDict fastloop true srcm (Z.of_nat (length B) + k) t cap PPrefix dictm (Z.of_nat (length hist)) m0) D t.
+    decodes_prefix (decompress_usingDict fastloop true srcm (Z.of_nat (length B) + k) t cap pl dictm (Z.of_nat (length hist)) m0) D t.
 Proof.
-  intros fastloop B hist D srcm dictm t cap k m0 Hv Hb Hs Hh Ht Hcap Hk Htr.
-  unfold hist_placed in Hh. unfold decompress_usingDict, decodes_prefix.
-  pose proof (out_at_lastn _ _ (Z.to_nat 65536) _ Hh) as Hh'.
+  intros fastloop pl B hist D srcm dictm t cap k m0 Hv Hb Hs Hh Ht Hcap Hk Htr.
+  unfold decompress_usingDict, decodes_prefix.
   pose proof (lastn_length (Z.to_nat 65536) hist) as Hl.
   destruct (partial_oend t cap (Z.of_nat (length D)) Ht ltac:(lia) Hcap) as (Ho0 & Hmin & Hle).
   rewrite <- Hmin.
   assert (Htr' : k = 0 \/ Z.min t cap <= Z.of_nat (length D)) by lia.
   destruct (Z.of_nat (length hist) =? 0) eqn:E0.
-  - apply (dec_generic_partial NoDict srcm empty 0 0 0 ltac:(lia) ltac:(lia) fastloop B (lastn (Z.to_nat 65536) hist) D (Z.min t cap) k m0); try assumption. lia.
-  - destruct (Z.of_nat (length hist) >=? 65536 - 1) eqn:E1.
-    + apply (dec_generic_partial WithPrefix64k srcm empty 0 (-65536) (- Z.of_nat (length hist)) ltac:(lia) ltac:(lia) fastloop B (lastn (Z.to_nat 65536) hist) D (Z.min t cap) k m0); try assumption. lia.
-    + apply (dec_generic_partial NoDict srcm empty 0 (- Z.of_nat (length hist)) (- Z.of_nat (length hist)) ltac:(lia) ltac:(lia) fastloop B (lastn (Z.to_nat 65536) hist) D (Z.min t cap) k m0); try assumption. lia.
+  - apply (dec_generic_partial NoDict srcm empty 0 0 0 ltac:(lia) ltac:(lia) fastloop B (lastn (Z.to_nat 65536) hist) D (Z.min t cap) k m0); try assumption.
+    + intros j Hj. rewrite rev_length in Hj. lia.
+    + unfold hroom. cbn [is_extdict]. lia.
+  - destruct pl.
+    + unfold hist_placed in Hh. pose proof (out_at_lastn _ _ (Z.to_nat 65536) _ Hh) as Hh'.
+      destruct (Z.of_nat (length hist) >=? 65536 - 1) eqn:E1.
+      * apply (dec_generic_partial WithPrefix64k srcm empty 0 (-65536) (- Z.of_nat (length hist)) ltac:(lia) ltac:(lia) fastloop B (lastn (Z.to_nat 65536) hist) D (Z.min t cap) k m0); try assumption.
+        -- apply view_prefix; [exact Hh' | rewrite rev_length; lia].
+        -- unfold hroom. cbn [is_extdict]. lia.
+      * apply (dec_generic_partial NoDict srcm empty 0 (- Z.of_nat (length hist)) (- Z.of_nat (length hist)) ltac:(lia) ltac:(lia) fastloop B (lastn (Z.to_nat 65536) hist) D (Z.min t cap) k m0); try assumption.
+        -- apply view_prefix; [exact Hh' | rewrite rev_length; lia].
+        -- unfold hroom. cbn [is_extdict]. lia.
+    + unfold hist_placed in Hh.
+      apply (dec_generic_partial UsingExtDict srcm dictm (Z.of_nat (length hist)) 0 0 ltac:(lia) ltac:(lia) fastloop B (lastn (Z.to_nat 65536) hist) D (Z.min t cap) k m0); try assumption.
+      * apply view_ext. exact Hh.
+      * unfold hroom. cbn [is_extdict]. lia.
 Qed.
+
+Theorem partial_exact_full : C16_partial_exact_full_statement.
+Proof. exact partial_exact. Qed.
 
 Theorem partial_exact_nodict :
   forall (fastloop : bool) (B D : list Z) (srcm : mem) (t cap k : Z) (m0 : mem),
@@ -155,22 +169,22 @@ Proof.
   rewrite <- Hmin.
   apply (dec_generic_partial NoDict srcm empty 0 0 0 ltac:(lia) ltac:(lia) fastloop B [] D (Z.min t cap) k m0); try assumption.
   - intros j Hj. cbn in Hj. lia.
-  - cbn. lia.
+  - unfold hroom. cbn. lia.
   - lia.
 Qed.
 
 (* the trailing-bytes case on its own: declared srcSize = |B| + k, t <= |D| *)
 Corollary partial_trailing_bytes :
-  forall (fastloop : bool) (B hist D : list Z) (srcm dictm : mem) (t cap k : Z) (m0 : mem),
+  forall (fastloop : bool) (pl : placement) (B hist D : list Z) (srcm dictm : mem) (t cap k : Z) (m0 : mem),
     strict_valid (lastn (Z.to_nat 65536) hist) B = Some D -> bytes B -> src_at srcm 0 B ->
-    hist_placed PPrefix hist dictm m0 -> 0 <= t <= Z.of_nat (length D) -> t <= cap -> 0 <= k ->
-    let '(r, m, _) := decompress_usingDict fastloop true srcm (Z.of_nat (length B) + k) t cap PPrefix dictm (Z.of_nat (length hist)) m0 in
+    hist_placed pl hist dictm m0 -> 0 <= t <= Z.of_nat (length D) -> t <= cap -> 0 <= k ->
+    let '(r, m, _) := decompress_usingDict fastloop true srcm (Z.of_nat (length B) + k) t cap pl dictm (Z.of_nat (length hist)) m0 in
     r = t /\ forall i, 0 <= i < t -> get m i = nth (Z.to_nat i) D 0.
 Proof.
-  intros fastloop B hist D srcm dictm t cap k m0 Hv Hb Hs Hh Ht Hcap Hk.
-  pose proof (partial_exact_prefix fastloop B hist D srcm dictm t cap k m0 Hv Hb Hs Hh) as H.
+  intros fastloop pl B hist D srcm dictm t cap k m0 Hv Hb Hs Hh Ht Hcap Hk.
+  pose proof (partial_exact fastloop pl B hist D srcm dictm t cap k m0 Hv Hb Hs Hh) as H.
   unfold decodes_prefix in H.
-  destruct (decompress_usingDict fastloop true srcm (Z.of_nat (length B) + k) t cap PPrefix dictm (Z.of_nat (length hist)) m0) as [[r m] kk].
+  destruct (decompress_usingDict fastloop true srcm (Z.of_nat (length B) + k) t cap pl dictm (Z.of_nat (length hist)) m0) as [[r m] kk].
   destruct H as [H1 H2]; try lia.
   replace (Z.min t (Z.of_nat (length D))) with t in H1 by lia. subst r. split; [reflexivity | exact H2].
 Qed.
